@@ -78,65 +78,86 @@ structure Inv (P : Pool α β) (s : PoolState α β) : Prop where
   /-- a finished item left exactly its own result in its own slot -/
   doneRes : ∀ i a, P.xs[i]? = some a → s.phase[i]? = some .done →
     s.outputs[i]? = some (P.exec i a).okVal ∧ s.errors[i]? = some (P.exec i a).failMsg
-  /-- nothing else wrote there -/
-  notDoneRes : ∀ i, i < P.n → s.phase[i]? ≠ some .done → s.outputs[i]? = some none ∧ s.errors[i]? = some none
-  /-- while the context is alive the semaphore counts exactly the running items and nothing was aborted -/
-  live : s.cancelled = false → running s = s.sem ∧ s.phase.countP (fun ph => ph == .aborted) = 0
+  /-- an aborted item is recorded as an error of its own index -/
+  abortedRes : ∀ (i : Nat), s.phase[i]? = some Phase.aborted →
+    s.outputs[i]? = some none ∧ s.errors[i]? = some (some ItemOutcome.abortMsg)
+  /-- nothing wrote into the slots of items that are still pending or running -/
+  liveRes : ∀ i, i < P.n → (s.phase[i]? = some .pending ∨ s.phase[i]? = some .running) →
+    s.outputs[i]? = some none ∧ s.errors[i]? = some none
+  /-- the semaphore counts exactly the running items — also after cancellation -/
+  semRunning : running s = s.sem
+  /-- while the context is alive nothing is aborted -/
+  noAbort : s.cancelled = false → s.phase.countP (fun ph => ph == .aborted) = 0
 
 theorem inv_init (P : Pool α β) : Inv P (init P) := by
-  refine ⟨by simp [init], by simp [init], by simp [init], by simp [init], ?_, ?_, ?_⟩
+  refine ⟨by simp [init], by simp [init], by simp [init], by simp [init], ?_, ?_, ?_, ?_, ?_⟩
   · intro i a _ h
+    simp [init, List.getElem?_replicate] at h
+  · intro i h
     simp [init, List.getElem?_replicate] at h
   · intro i hi _
     simp [init, hi]
+  · simp [init, running, List.countP_replicate, isRunning]
   · intro _
-    simp [init, running, List.countP_replicate, isRunning]
+    simp [init, List.countP_replicate]
 
 theorem lt_of_phase {P : Pool α β} {s : PoolState α β} (hI : Inv P s) {i : Nat} {ph : Phase}
     (h : s.phase[i]? = some ph) : i < P.n := by
   obtain ⟨hi, _⟩ := List.getElem?_eq_some_iff.mp h
   rw [← hI.lenPhase]; exact hi
 
+theorem live_of_set {l : List Phase} {i j : Nat} {a : Phase} (hij : i ≠ j)
+    (h : (l.set i a)[j]? = some .pending ∨ (l.set i a)[j]? = some .running) :
+    l[j]? = some .pending ∨ l[j]? = some .running := by
+  simpa [List.getElem?_set, hij] using h
+
 theorem inv_acquire {P : Pool α β} {s : PoolState α β} (hI : Inv P s) {i : Nat} {a : α}
     (hok : acquireOk P s i) :
     Inv P { s with phase := s.phase.set i .running, sem := s.sem + 1, started := s.started ++ [(i, a)] } := by
   obtain ⟨hph, hsem⟩ := hok
-  refine ⟨by simp [hI.lenPhase], hI.lenOut, hI.lenErr, by simp; omega, ?_, ?_, ?_⟩
+  have h1 := countP_set_of_getElem? (p := isRunning) (b := .running) hph
+  have h2 := countP_set_of_getElem? (p := fun ph => ph == .aborted) (b := .running) hph
+  simp [isRunning] at h1 h2
+  refine ⟨by simp [hI.lenPhase], hI.lenOut, hI.lenErr, by simp; omega, ?_, ?_, ?_, ?_, ?_⟩
   · intro j b hb hd
     rcases getElem?_set_eq_some hd with ⟨_, hx⟩ | ⟨_, hd'⟩
     · cases hx
     · exact hI.doneRes j b hb hd'
-  · intro j hj hnd
+  · intro j hd
+    rcases getElem?_set_eq_some hd with ⟨_, hx⟩ | ⟨_, hd'⟩
+    · cases hx
+    · exact hI.abortedRes j hd'
+  · intro j hj hl
     by_cases hij : i = j
     · subst hij
-      exact hI.notDoneRes i hj (by rw [hph]; simp)
-    · simp only [List.getElem?_set, hij, if_false] at hnd
-      exact hI.notDoneRes j hj hnd
-  · intro hc
-    obtain ⟨hr, ha⟩ := hI.live hc
-    have h1 := countP_set_of_getElem? (p := isRunning) (b := .running) hph
-    have h2 := countP_set_of_getElem? (p := fun ph => ph == .aborted) (b := .running) hph
-    simp [isRunning] at h1 h2
+      exact hI.liveRes i hj (Or.inl hph)
+    · exact hI.liveRes j hj (live_of_set hij hl)
+  · have hr := hI.semRunning
     simp only [running] at hr ⊢
-    constructor
-    · omega
-    · omega
+    omega
+  · intro hc
+    have ha := hI.noAbort hc
+    simp only at ha ⊢
+    omega
 
 theorem inv_finish {P : Pool α β} {s : PoolState α β} (hI : Inv P s) {i : Nat} {a : α} (ha : P.xs[i]? = some a)
-    {release : Bool} (hok : finishOk s i release) :
+    (hok : finishOk s i) :
     Inv P { store s i (P.exec i a) with
       phase := (store s i (P.exec i a)).phase.set i .done
-      sem := if release then (store s i (P.exec i a)).sem - 1 else (store s i (P.exec i a)).sem } := by
+      sem := (store s i (P.exec i a)).sem - 1 } := by
   obtain ⟨hph, hrel⟩ := hok
   have hi : i < P.n := lt_of_phase hI hph
-  obtain ⟨ho, he⟩ := hI.notDoneRes i hi (by rw [hph]; simp)
+  obtain ⟨ho, he⟩ := hI.liveRes i hi (Or.inr hph)
   rw [store_eq s i _ ho he]
   have hio : i < s.outputs.length := by rw [hI.lenOut]; exact hi
   have hie : i < s.errors.length := by rw [hI.lenErr]; exact hi
   have hip : i < s.phase.length := by rw [hI.lenPhase]; exact hi
-  refine ⟨by simp [hI.lenPhase], by simp [hI.lenOut], by simp [hI.lenErr], ?_, ?_, ?_, ?_⟩
+  have h1 := countP_set_of_getElem? (p := isRunning) (b := .done) hph
+  have h2 := countP_set_of_getElem? (p := fun ph => ph == .aborted) (b := .done) hph
+  simp [isRunning] at h1 h2
+  refine ⟨by simp [hI.lenPhase], by simp [hI.lenOut], by simp [hI.lenErr], ?_, ?_, ?_, ?_, ?_, ?_⟩
   · have := hI.semLe
-    simp only; split <;> omega
+    simp only; omega
   · intro j b hb hd
     simp only [List.getElem?_set] at hd ⊢
     by_cases hij : i = j
@@ -145,48 +166,61 @@ theorem inv_finish {P : Pool α β} {s : PoolState α β} (hI : Inv P s) {i : Na
       simp [hio, hie]
     · simp only [hij, if_false] at hd ⊢
       exact hI.doneRes j b hb hd
-  · intro j hj hnd
-    simp only [List.getElem?_set] at hnd ⊢
+  · intro j hd
+    simp only [List.getElem?_set] at hd ⊢
     by_cases hij : i = j
-    · subst hij; simp [hip] at hnd
-    · simp only [hij, if_false] at hnd ⊢
-      exact hI.notDoneRes j hj hnd
-  · intro hc
-    simp only at hc
-    obtain ⟨hr, hab⟩ := hI.live hc
-    have h1 := countP_set_of_getElem? (p := isRunning) (b := .done) hph
-    have h2 := countP_set_of_getElem? (p := fun ph => ph == .aborted) (b := .done) hph
-    simp [isRunning] at h1 h2
+    · subst hij; simp [hip] at hd
+    · simp only [hij, if_false] at hd ⊢
+      exact hI.abortedRes j hd
+  · intro j hj hl
+    simp only [List.getElem?_set] at hl ⊢
+    by_cases hij : i = j
+    · subst hij; simp [hip] at hl
+    · simp only [hij, if_false] at hl ⊢
+      exact hI.liveRes j hj hl
+  · have hr := hI.semRunning
     simp only [running] at hr ⊢
-    cases release
-    · simp [hc] at hrel
-    · simp at hrel
-      simp only [if_true]
-      constructor
-      · omega
-      · omega
+    omega
+  · intro hc
+    have hab := hI.noAbort hc
+    simp only at hab ⊢
+    omega
 
 theorem inv_cancel {P : Pool α β} {s : PoolState α β} (hI : Inv P s) : Inv P { s with cancelled := true } := by
-  refine ⟨hI.lenPhase, hI.lenOut, hI.lenErr, hI.semLe, hI.doneRes, hI.notDoneRes, ?_⟩
+  refine ⟨hI.lenPhase, hI.lenOut, hI.lenErr, hI.semLe, hI.doneRes, hI.abortedRes, hI.liveRes, hI.semRunning, ?_⟩
   intro h; simp at h
 
-theorem inv_abort {P : Pool α β} {s : PoolState α β} (hI : Inv P s) {i : Nat} {steal : Bool}
-    (hok : abortOk s i steal) :
-    Inv P { s with phase := s.phase.set i .aborted, sem := if steal then s.sem - 1 else s.sem } := by
-  obtain ⟨hph, hc, _⟩ := hok
-  refine ⟨by simp [hI.lenPhase], hI.lenOut, hI.lenErr, ?_, ?_, ?_, ?_⟩
-  · have := hI.semLe
-    simp only; split <;> omega
+theorem inv_abort {P : Pool α β} {s : PoolState α β} (hI : Inv P s) {i : Nat} (hok : abortOk s i) :
+    Inv P { s with phase := s.phase.set i .aborted, errors := s.errors.set i (some ItemOutcome.abortMsg) } := by
+  obtain ⟨hph, hc⟩ := hok
+  have hi : i < P.n := lt_of_phase hI hph
+  obtain ⟨ho, _⟩ := hI.liveRes i hi (Or.inl hph)
+  have hie : i < s.errors.length := by rw [hI.lenErr]; exact hi
+  have hip : i < s.phase.length := by rw [hI.lenPhase]; exact hi
+  have h1 := countP_set_of_getElem? (p := isRunning) (b := .aborted) hph
+  simp [isRunning] at h1
+  refine ⟨by simp [hI.lenPhase], hI.lenOut, by simp [hI.lenErr], hI.semLe, ?_, ?_, ?_, ?_, ?_⟩
   · intro j b hb hd
-    rcases getElem?_set_eq_some hd with ⟨_, hx⟩ | ⟨_, hd'⟩
-    · cases hx
-    · exact hI.doneRes j b hb hd'
-  · intro j hj hnd
+    simp only [List.getElem?_set] at hd ⊢
     by_cases hij : i = j
-    · subst hij
-      exact hI.notDoneRes i hj (by rw [hph]; simp)
-    · simp only [List.getElem?_set, hij, if_false] at hnd
-      exact hI.notDoneRes j hj hnd
+    · subst hij; simp [hip] at hd
+    · simp only [hij, if_false] at hd ⊢
+      exact hI.doneRes j b hb hd
+  · intro j hd
+    simp only [List.getElem?_set] at hd ⊢
+    by_cases hij : i = j
+    · subst hij; simp [hie, ho]
+    · simp only [hij, if_false] at hd ⊢
+      exact hI.abortedRes j hd
+  · intro j hj hl
+    simp only [List.getElem?_set] at hl ⊢
+    by_cases hij : i = j
+    · subst hij; simp [hip] at hl
+    · simp only [hij, if_false] at hl ⊢
+      exact hI.liveRes j hj hl
+  · have hr := hI.semRunning
+    simp only [running] at hr ⊢
+    omega
   · intro h; simp [hc] at h
 
 theorem inv_step {P : Pool α β} {s s' : PoolState α β} (hI : Inv P s) {t : Tr} (h : step P s t = some s') :
@@ -199,7 +233,7 @@ theorem inv_step {P : Pool α β} {s s' : PoolState α β} (hI : Inv P s) {t : T
     · split at h
       · cases h; exact inv_acquire hI ‹_›
       · cases h
-  | finish i release =>
+  | finish i =>
     simp only [step] at h
     split at h
     · cases h
@@ -212,7 +246,7 @@ theorem inv_step {P : Pool α β} {s s' : PoolState α β} (hI : Inv P s) {t : T
     split at h
     · cases h
     · cases h; exact inv_cancel hI
-  | abort i steal =>
+  | abort i =>
     simp only [step] at h
     split at h
     · cases h; exact inv_abort hI ‹_›
@@ -245,7 +279,7 @@ theorem cancelled_step {P : Pool α β} {s s' : PoolState α β} {t : Tr} (h : s
     · split at h
       · cases h; exact hc
       · cases h
-  | finish i release =>
+  | finish i =>
     simp only [step] at h
     split at h
     · cases h
@@ -257,7 +291,7 @@ theorem cancelled_step {P : Pool α β} {s s' : PoolState α β} {t : Tr} (h : s
     split at h
     · cases h
     · cases h
-  | abort i steal =>
+  | abort i =>
     simp only [step] at h
     split at h
     · cases h; exact hc
